@@ -310,6 +310,12 @@ def gen_program(rng, opts=None):
         if o["fsm"] and r.random() < 0.4:
             fd = r.choice(domains)["name"]
             names_ = ["S%d" % k for k in range(r.randint(2, 4))]
+            if r.random() < 0.3:
+                # state keys may be any hashable object: integers (0 is falsy) in a shuffled order, or the empty string
+                names_ = list(range(len(names_)))
+                r.shuffle(names_)
+            elif r.random() < 0.15:
+                names_[r.randrange(1, len(names_))] = ""
             f = {"id": g.fsm_count, "name": r.choice(["fsm", "ctrl"]), "domain": fd, "names": names_,
                  "init": r.choice([None, None] + names_), "states": []}
             g.fsm_count += 1
